@@ -19,6 +19,8 @@ The oracle (`rule`) is the declarative rule of the property text on the encoding
 """
 import json
 import itertools
+import collections
+import collections.abc
 from fractions import Fraction
 from decimal import Decimal
 from common import *   # noqa
@@ -30,7 +32,7 @@ GEN_MODULES = []
 REQUIRED = [
     'nominate_ok_iff_admits', 'nominate_rejects_with_candidateError',
     'bounds_inclusive', 'bounds_inclusive_ends', 'bounds_one_sided', 'bounds_check_iff_within',
-    'bounds_crossing_rejects_all', 'bounds_none_accepts_all', 'boundMap_get_default',
+    'bounds_crossing_rejects_all', 'bounds_none_accepts_all', 'boundMap_get_default', 'boundMap_empty',
     'validate_iff_valid_simple', 'validate_iff_valid_approval', 'validate_iff_valid_ranked',
     'ranked_mutable_set_rank_rejected',
     'validateScoreBase_iff', 'validate_iff_valid_enumscore', 'validate_iff_valid_range', 'validate_iff_valid_key',
@@ -65,6 +67,9 @@ REQUIRED_COUNTERS = [
     'shared_rank_3plus', 'empty_shared_rank', 'rank_as_list', 'rank_as_set', 'rank_as_tuple', 'rank_as_dict',
     'score_dup_equal_score', 'score_dup_diff_score', 'hash_alike_scores', 'level_miss_hash_alike',
     'score_decimal_7plus', 'score_zero_fraction', 'score_zero_decimal', 'score_float', 'score_bool',
+    'explicit_checkers_empty_dict', 'explicit_checkers_empty_defaultdict', 'explicit_checkers_single_key',
+    'explicit_checkers_mapping', 'explicit_checkers_defaultdict_keys', 'explicit_checkers:rank', 'explicit_checkers:sum',
+    'explicit_differs_from_default',
     'op:validate_seq', 'seq_valid_after_invalid', 'other_validator_first', 'elim_mixed_kinds',
     'ballot_len_0', 'ballot_len_1', 'ballot_len_50plus',
 ]
@@ -302,7 +307,12 @@ def plain_val(val):
     for k in ('rank', 'sum'):
         if out.get(k) is not None:
             bm = out[k]
-            out[k] = {'all': plain_bounds(bm['all'])} if 'all' in bm else {'by': [[kk, plain_bounds(b)] for kk, b in bm['by']]}
+            if 'all' in bm:
+                out[k] = {'all': plain_bounds(bm['all'])}
+            else:
+                out[k] = {'by': [[kk, plain_bounds(b)] for kk, b in bm['by']]}
+                if 'default' in bm:
+                    out[k]['default'] = plain_bounds(bm['default'])
     return out
 
 
@@ -310,6 +320,18 @@ def py_boundmap(bm):
     if 'all' in bm:
         return py_bounds(bm['all'])
     return {k: py_bounds(b) for k, b in bm['by']}
+
+
+def show_map(bounds_kw, checker_kw, bm):
+    """constructor arguments of a bound map, as text"""
+    if bm is None:
+        return ''
+    if not bm.get('form'):
+        return f", {bounds_kw}={py_boundmap(bm)}"
+    listed = '{' + ', '.join(f'{k}: VoteMagnitudeChecker({py_bounds(b)})' for k, b in bm['by']) + '}'
+    m = {'plain': listed, 'proxy': f'MappingProxyType({listed})', 'custom': f'CustomMapping({listed})',
+         'defaultdict': f"defaultdict(lambda: VoteMagnitudeChecker({py_bounds(bm.get('default', [None, None]))}), {listed})"}[bm['form']]
+    return f", {checker_kw}={m}" + (f", {bounds_kw}=(7, 7)" if bm.get('junk') else '')
 
 
 def mk_nominator(n):
@@ -349,6 +371,24 @@ def mk_validator(val, pool):
     def mapping(bounds_kw, checker_kw, bm, name='count'):
         if bm is None:
             return {}
+        if bm.get('form'):
+            # an explicit mapping of checkers: plain dict, read-only proxy, custom Mapping, or defaultdict with a factory;
+            # the bounds argument is either omitted (its default must not come into force) or contradicting junk
+            listed = {k: vv.VoteMagnitudeChecker(py_bounds(b), name) for k, b in bm['by']}
+            if bm['form'] == 'plain':
+                m = listed
+            elif bm['form'] == 'proxy':
+                import types
+                m = types.MappingProxyType(listed)
+            elif bm['form'] == 'custom':
+                m = _CustomMapping(listed)
+            else:
+                dflt = py_bounds(bm.get('default', [None, None]))
+                m = collections.defaultdict(lambda: vv.VoteMagnitudeChecker(dflt, name), listed)
+            kw = {checker_kw: m}
+            if bm.get('junk'):
+                kw[bounds_kw] = junk
+            return kw
         if via == 'plain_dicts' and 'by' in bm:
             return {bounds_kw: junk, checker_kw: {k: vv.VoteMagnitudeChecker(py_bounds(b), name) for k, b in bm['by']}}
         return {bounds_kw: py_boundmap(bm)}
@@ -368,6 +408,21 @@ def mk_validator(val, pool):
         kw.update(scalar('range', 'range_checker', val['range'], 'range vote value'))
         return vv.RangeVoteValidator(**nomkw, **kw)
     raise ValueError(vt)
+
+
+class _CustomMapping(collections.abc.Mapping):
+    """a read-only Mapping that is no dict"""
+    def __init__(self, d):
+        self._d = dict(d)
+
+    def __getitem__(self, k):
+        return self._d[k]
+
+    def __iter__(self):
+        return iter(self._d)
+
+    def __len__(self):
+        return len(self._d)
 
 
 def uses_plain_dicts(val):
@@ -506,12 +561,14 @@ def active(b):
 
 
 def bm_get(bm, key):
+    """bounds in force for a key: a tuple applies to every key; a dictionary (of bounds or of explicit checkers) leaves
+    unlisted keys unconstrained; an explicit defaultdict gives them its factory's checker ('default')"""
     if 'all' in bm:
         return bm['all']
     for k, b in bm['by']:
         if k == key:
             return b
-    return [None, None]
+    return bm.get('default', [None, None])
 
 
 def rule(val, e):
@@ -754,7 +811,13 @@ def retype_bounds(rng, val):
             cnt = k == 'rank'
             def rt(b):
                 return [retype_num(rng, b[0], -0.6 if cnt else None), retype_num(rng, b[1], 0.4 if cnt else None)]
-            val[k] = {'all': rt(bm['all'])} if 'all' in bm else {'by': [[kk, rt(b)] for kk, b in bm['by']]}
+            if 'all' in bm:
+                val[k] = {'all': rt(bm['all'])}
+            else:
+                nb = dict(bm, by=[[kk, rt(b)] for kk, b in bm['by']])
+                if 'default' in bm:
+                    nb['default'] = rt(bm['default'])
+                val[k] = nb
     return val
 
 
@@ -1133,6 +1196,51 @@ def with_via(rng, val, tags):
     return val
 
 
+def with_maps(rng, val, tags):
+    """hand the per-rank / per-count checkers over as an explicit mapping: empty or one-key plain dict, read-only / custom
+    Mapping, defaultdict with a bounding factory (empty or with listed keys)"""
+    key = 'rank' if val['vt'] == 'ranked' else 'sum' if val['vt'] in ('enum', 'range') else None
+    if key is None or val.get('via') == 'plain_dicts':
+        return val
+    val = dict(val)
+    bm = val.get(key)
+    junk = rng.random() < 0.4
+    if bm is None:
+        # the constructor default (1, 1) must not come into force once a mapping is given
+        nb = rng.choice([{'by': [], 'form': 'plain'}, {'by': [], 'form': 'custom'},
+                         {'by': [], 'default': rng.choice([[None, '2'], ['2', '3'], ['1', '1']]), 'form': 'defaultdict'}])
+    elif 'all' in bm:
+        nb = {'by': [], 'default': bm['all'], 'form': 'defaultdict'}
+    else:
+        m = list(bm['by'])
+        r = rng.random()
+        if r < 0.25:
+            m = m[:1]
+        elif r < 0.4:
+            m = []
+        if rng.random() < 0.4:
+            sub = []
+            nb = {'by': m, 'default': rel_bounds(rng, rng.choice([1, 2, 3]), sub, integer=(key == 'rank')), 'form': 'defaultdict'}
+        else:
+            nb = {'by': m, 'form': rng.choice(['plain', 'plain', 'proxy', 'custom'])}
+    if junk:
+        nb['junk'] = True
+    val[key] = nb
+    tags.append('explicit_checker_mapping')
+    return val
+
+
+def differs_from_default(val, vote):
+    """does the explicit mapping judge the ballot differently from the bounds the constructor would default to?"""
+    key = 'rank' if val['vt'] == 'ranked' else 'sum'
+    bm = val.get(key)
+    if not (bm and bm.get('form')):
+        return False
+    dflt = dict(val)
+    dflt[key] = None if key == 'rank' else {'all': [None, None]}
+    return bool(rule(val, vote)) != bool(rule(dflt, vote))
+
+
 def directed(rng):
     """cases that guarantee every required counter for every seed"""
     basic = {'k': 'basic', 'blank': True}
@@ -1194,6 +1302,29 @@ def directed(rng):
                           [{'f': [{'t': [S(0), N(fifth, D=True)]}, {'t': [S(1), N(fifth, D=True)]}]}, '2']],
                 '_tags': ['elim_exact_sum', 'exact_sum', 'score_decimal_on_sum_bound']})
     out.append(mk_case({'vt': 'ranked', 'total': [None, None], 'rank': None, 'nom': basic}, {'t': [S(4), S(0)]}, ['empty_name_candidate']))
+    # explicit checker mappings: empty plain dict, empty defaultdict with a bounding factory, one key, non-dict Mappings
+    AB_C = {'t': [{'f': [S(0), S(1)]}, S(2)]}
+    def rk(bm):
+        return {'vt': 'ranked', 'total': [None, None], 'rank': bm, 'nom': basic}
+    for bm in ({'by': [], 'form': 'plain'}, {'by': [], 'form': 'plain', 'junk': True}, {'by': [], 'form': 'proxy'}, {'by': [], 'form': 'custom'},
+               {'by': [], 'default': [None, '2'], 'form': 'defaultdict'}, {'by': [], 'default': ['2', '3'], 'form': 'defaultdict'},
+               {'by': [[1, ['2', '2']]], 'form': 'plain'}, {'by': [[2, ['2', '2']]], 'form': 'custom'},
+               {'by': [[1, ['2', '2']]], 'default': ['1', '1'], 'form': 'defaultdict'},
+               {'by': [[2, [None, '0']]], 'default': [None, '2'], 'form': 'defaultdict', 'junk': True}):
+        for vote in (AB_C, {'t': [S(0)]}, {'t': [S(0), {'f': [S(1), S(2)]}]}, {'t': [{'f': [S(0), S(1), S(2)]}]}):
+            out.append(mk_case(rk(bm), vote, ['explicit_checker_mapping']))
+    out.append({'op': 'eliminate', 'val': rk({'by': [], 'default': ['2', '3'], 'form': 'defaultdict'}),
+                'votes': [[{'t': [S(0)]}, '3'], [AB_C, '2'], [{'t': [{'f': [S(0), S(1)]}]}, '5']], '_tags': ['explicit_checker_mapping']})
+    out.append({'op': 'eliminate', 'val': rk({'by': [], 'form': 'plain'}),
+                'votes': [[{'t': [S(0)]}, '3'], [AB_C, '2'], [{'t': [S(0), S(0)]}, '5']], '_tags': ['explicit_checker_mapping']})
+    two = {'f': [{'t': [S(0), N(2)]}, {'t': [S(1), N(3)]}]}
+    one = {'f': [{'t': [S(0), N(2)]}]}
+    for bm in ({'by': [], 'form': 'plain'}, {'by': [], 'form': 'plain', 'junk': True}, {'by': [], 'default': [None, '4'], 'form': 'defaultdict'},
+               {'by': [], 'default': ['3', None], 'form': 'defaultdict'}, {'by': [[2, [None, '4']]], 'form': 'proxy'},
+               {'by': [[1, ['3', '3']]], 'default': ['5', '5'], 'form': 'defaultdict'}, {'by': [[2, ['5', '5']]], 'form': 'custom'}):
+        for vote in (two, one):
+            out.append(mk_case({'vt': 'range', 'n': [None, None], 'sum': bm, 'range': [None, None], 'nom': basic}, vote, ['explicit_checker_mapping']))
+            out.append(mk_case({'vt': 'enum', 'n': [None, None], 'sum': bm, 'levels': [N(2), N(3)], 'nom': basic}, vote, ['explicit_checker_mapping']))
     # checklist dimensions: bound types, nominator options, object variants, unhashable positions, ballot shapes
     for nomd in NOMS:
         for flip in (False, True):
@@ -1517,6 +1648,8 @@ def _gen(rng, tier):
         tags = []
         val, vote = gen_any(rng, tags)
         val = with_via(rng, val, tags)
+        if rng.random() < 0.25:
+            val = with_maps(rng, val, tags)
         if rng.random() < 0.3:
             val = retype_bounds(rng, val)
         yield mk_case(val, vote, tags)
@@ -1728,6 +1861,18 @@ def config_tags(val):
             if 'all' in bm:
                 bs.append(bm['all'])
             else:
+                if bm.get('form'):
+                    if 'default' in bm:
+                        bs.append(bm['default'])
+                    if not bm['by']:
+                        tags.add('explicit_checkers_empty_defaultdict' if bm['form'] == 'defaultdict' else 'explicit_checkers_empty_dict')
+                    elif len(bm['by']) == 1:
+                        tags.add('explicit_checkers_single_key')
+                    if bm['form'] in ('proxy', 'custom'):
+                        tags.add('explicit_checkers_mapping')
+                    if bm['form'] == 'defaultdict' and bm['by']:
+                        tags.add('explicit_checkers_defaultdict_keys')
+                    tags.add('explicit_checkers:' + k)
                 for kk, b in bm['by']:
                     bs.append(b)
                     if kk == 0:
@@ -1781,6 +1926,8 @@ def generate(rng, tier):
             for w in why:
                 tags.append('why:' + w)
             tags += sorted(structure_tags(val['vt'], c['vote']))
+            if val['vt'] in ('ranked', 'enum', 'range') and differs_from_default(val, c['vote']):
+                tags.append('explicit_differs_from_default')
             bm = val.get('rank') if val['vt'] == 'ranked' else val.get('sum')
             e = c['vote']
             if bm is not None and 'by' in bm and e is not None and ('t' in e or 'f' in e):
@@ -1882,14 +2029,14 @@ def describe(case):
     elif vt == 'approval':
         ctor = f"ApprovalVoteValidator(vote_count_bounds={py_bounds(val['count'])}, nominator={noms})"
     elif vt == 'ranked':
-        rk = '' if val.get('rank') is None else f", rank_vote_count_bounds={py_boundmap(val['rank'])}"
+        rk = show_map('rank_vote_count_bounds', 'rank_vote_count_checkers', val.get('rank'))
         ctor = f"RankedVoteValidator(total_vote_count_bounds={py_bounds(val['total'])}{rk}, nominator={noms})"
     elif vt == 'enum':
-        ctor = (f"EnumScoreVoteValidator({[pool.build(x) for x in val['levels']]!r}, allowed_scorings={py_bounds(val['n'])}, "
-                f"sum_bounds={py_boundmap(val['sum'])}, nominator={noms})")
+        ctor = (f"EnumScoreVoteValidator({[pool.build(x) for x in val['levels']]!r}, allowed_scorings={py_bounds(val['n'])}"
+                f"{show_map('sum_bounds', 'sum_checkers', val['sum'])}, nominator={noms})")
     else:
-        ctor = (f"RangeVoteValidator(range={py_bounds(val['range'])}, allowed_scorings={py_bounds(val['n'])}, "
-                f"sum_bounds={py_boundmap(val['sum'])}, nominator={noms})")
+        ctor = (f"RangeVoteValidator(range={py_bounds(val['range'])}, allowed_scorings={py_bounds(val['n'])}"
+                f"{show_map('sum_bounds', 'sum_checkers', val['sum'])}, nominator={noms})")
     if nom.get('flip'):
         ctor += ' [nominator flags set after construction]'
     if case['op'] == 'validate':
